@@ -3,7 +3,7 @@ faults, run through the real release binary (feature off) or through the in-proc
 harness (`vharness cdedb-read`). Every random choice derives from random.Random(seed)."""
 import json, os, random, subprocess, copy, struct, re, shutil, stat, tempfile, hashlib
 
-STREAMS = {"cdedb-read", "cdedb-pairs", "e2e-cde", "cli-simple", "cli-malformed", "cli-fault", "cli-main"}
+STREAMS = {"cdedb-read", "cdedb-pairs", "e2e-cde", "cli-simple", "cli-malformed", "cli-fault", "cli-main", "simple-read"}
 
 VERIF = os.path.dirname(os.path.dirname(os.path.abspath(__file__)))
 HARNESS_EXE = os.path.join(VERIF, "build", "harness-target", "debug", "vharness")
@@ -57,8 +57,10 @@ def quality_matches(what, got):
 # --------------------------------------------------------------------------------------------------
 # generators
 
-NAMES = ["Anton", "Berta", "Çağla", "Dörte", "Émile", "Fatima", "Günther", "Hồ", "Ines", "João", "Καλλιόπη", "李"]
-FAMILY = ["Administrator", "Beispiel", "Çelik", "Müller-Lüdenscheidt", "O'Neill", "ß", "Zimmermann", "García", "\"Hansi\" Meier", "Back\\slash", "{Klammer}"]
+NAMES = ["Anton", "Berta", "Çağla", "Dörte", "Émile", "Fatima", "Günther", "Hồ", "Ines", "João", "Καλλιόπη", "李",
+         "Jean\u2011Luc", "Rene\u0301", "Zoe\u0308", "Anne\u00a0Marie", "Ой"]
+FAMILY = ["Administrator", "Beispiel", "Çelik", "Müller-Lüdenscheidt", "O'Neill", "ß", "Zimmermann", "García", "\"Hansi\" Meier", "Back\\slash", "{Klammer}",
+          "D\u2019Arcy", "Meier \u2013 Schulze", "\u00bfQuién?", "\u201eGänse\u201c-Füßchen", "Mustermann, Erika"]
 NRS = ["1", "2", "10", "α", "A1", "3b", "11", "Ω-2", "9", "12", "100", "ζ", "1a", "20", "", "07", "7", "0", "0.5", "-1", ".5", " 7", "*", "00"]
 
 
@@ -308,7 +310,7 @@ def corrupt_export(r, doc, opts, info, what=None):
     return what
 
 
-def irrelevant_edits(r, doc, opts, info):
+def irrelevant_edits(r, doc, opts, info, names=False):
     """C13: edits that must not matter (other tracks / parts, lodgement and persona data, and — without
     the corresponding ignore option — course_id values and true/false segment flags of the selected track)"""
     d = copy.deepcopy(doc)
@@ -318,9 +320,22 @@ def irrelevant_edits(r, doc, opts, info):
     n = r.randint(1, 10)
     done = []
     for _ in range(n):
-        k = r.choice(["other-track-reg", "other-part-status", "other-seg", "lodgement", "persona", "course_id", "segflag", "event-meta", "course-meta"])
+        k = r.choice(["other-track-reg", "other-part-status", "other-seg", "lodgement", "persona", "course_id", "segflag", "event-meta", "course-meta"]
+                     + (["persona-names", "persona-names"] if names else []))
         regs = list(d["registrations"].values())
         reg = r.choice(regs)
+        if k == "persona-names":
+            # (end-to-end twins only: names show in the listing and the log, never in verdict, score or the
+            # written file) a renamed person — half of the time the namesake of another registration
+            other = r.choice(regs)
+            if r.random() < 0.5 and other is not reg:
+                reg["persona"]["given_names"] = other["persona"]["given_names"]
+                reg["persona"]["family_name"] = other["persona"]["family_name"]
+            else:
+                reg["persona"]["given_names"] = r.choice(NAMES)
+                reg["persona"]["family_name"] = r.choice(FAMILY)
+            done.append(k)
+            continue
         if k == "other-track-reg":
             others = [x for x in reg["tracks"].keys() if x != t]
             if others:
@@ -385,16 +400,20 @@ def gen_simple(r, rooms_mode=1, big=False):
         mx = r.choice({0: [3, 4, 6, 8, 10], 2: [0, 1, 1, 2, 2], 3: [0, 0, 1, 2, 4]}.get(shape, [0, 1, 2, 2, 3, 4, 6]))
         mn = (r.choice([0, 0, 1, 1, 2]) if shape == 0 else (mx if r.random() < 0.2 else r.randint(0, mx)))
         mn = min(mn, mx)
-        c = {"name": r.choice(["Kurs", "Çay", "Ωmega", "Tanz", "Mac's \"Kurs\"", "C:\\Kurs"]) + f" {i}", "num_max": mx, "num_min": mn, "instructors": []}
+        c = {"name": r.choice(["Kurs", "Çay", "Ωmega", "Tanz", "Mac's \"Kurs\"", "C:\\Kurs", "Töpfern \u2013 Anfänger", "Cafe\u0301 \u00b7 Klatsch"]) + f" {i}", "num_max": mx, "num_min": mn, "instructors": []}
         if r.random() < 0.5:
             # incl. courses that need no room at all (factor 0: an outdoor course still takes place)
             c["room_factor"] = r.choice([1.0, 1.5, 2.0, 2.5, 0.5, 1.2, 0.0, 0.25])
         if r.random() < 0.4:
             c["room_offset"] = r.choice([0.0, 1.0, 2.5, 0.5])
+        if i == 0 and nc >= 2 and np_ % 7 == 3:
+            # numbers at the edge of the float → size conversion: a negative effective size counts as 0, an
+            # infinite one as "larger than every room"
+            c.update(r.choice([{"room_offset": -3.0}, {"room_offset": -40.5, "room_factor": 1.0}, {"room_factor": 1e39}, {"room_offset": 1e30}]))
         if r.random() < 0.2:
             c["fixed_course"] = True
         if r.random() < 0.25:
-            c["hidden_participant_names"] = [r.choice(NAMES) + " (hidden)" for _ in range(r.randint(1, 3))]
+            c["hidden_participant_names"] = [r.choice(NAMES) + r.choice([" (hidden)", " (hidden)", ", " + r.choice(FAMILY), " \u2013 Gast ", "  "]) for _ in range(r.randint(1, 3))]
             if r.random() < 0.3:
                 # two different people of the same name
                 c["hidden_participant_names"].append(c["hidden_participant_names"][0])
@@ -770,7 +789,7 @@ def stream_e2e_cde(seed, tier, workdir, stream):
             rooms = [r.choice([6, 8, 10, 12]) for _ in range(len(doc["courses"]))]
         twin = None
         if i % 3 == 0:
-            twin, edits = irrelevant_edits(r, doc, opts, info)
+            twin, edits = irrelevant_edits(r, doc, opts, info, names=True)
         cases.append({"doc": doc, "opts": opts, "info": info, "rooms": rooms, "threads": r.choice([1, 1, 2, 4]), "twin": twin,
                       "prf": rooms is not None and r.random() < 0.6})
     return cases
@@ -1127,7 +1146,7 @@ def lines_cli_simple(cases, workdir, stream, binary):
 # --------------------------------------------------------------------------------------------------
 # stream: cli-malformed (C15)
 
-SIMPLE_CORRUPTIONS = ["choice-oob", "instr-oob", "instr-oob-twice", "instr-eq-len", "min>max", "no-participants", "no-courses", "part-not-list", "choice-str", "neg-penalty",
+SIMPLE_CORRUPTIONS = ["no-instructors", "instructors-misspelled", "no-choices-member", "choice-oob", "instr-oob", "instr-oob-twice", "instr-eq-len", "min>max", "no-participants", "no-courses", "part-not-list", "choice-str", "neg-penalty",
                      "no-name", "no-num-max", "num-max-str", "instr-str", "factor-str", "fixed-int", "course-null", "penalty-float", "choice-missing-course",
                      "huge-index", "neg-index", "top-array", "hidden-not-list"]
 
@@ -1135,7 +1154,14 @@ SIMPLE_CORRUPTIONS = ["choice-oob", "instr-oob", "instr-oob-twice", "instr-eq-le
 def corrupt_simple(r, doc, what=None):
     what = what or r.choice(SIMPLE_CORRUPTIONS)
     cs, ps = doc["courses"], doc["participants"]
-    if what == "choice-oob":
+    if what == "no-instructors":
+        del r.choice(cs)["instructors"]
+    elif what == "instructors-misspelled":
+        c = r.choice(cs)
+        c["instructor"] = c.pop("instructors")
+    elif what == "no-choices-member":
+        del r.choice(ps)["choices"]
+    elif what == "choice-oob":
         r.choice(ps)["choices"].append({"course": len(cs) + r.randint(0, 2), "penalty": 0})
     elif what == "instr-oob":
         r.choice(cs)["instructors"].append(len(ps) + r.randint(1, 3))
@@ -1388,12 +1414,14 @@ def stream_cli_fault(seed, tier, workdir, stream):
     cases = []
     # a simple instance (FAULT_SIMPLE) and an export (TestAka) that certainly have a solution
     for fmt in ["simple", "cde"]:
-        for fault in ["ok", "missing-dir", "is-dir", "name-too-long", "notdir-component", "dev-full", "readonly-dir", "fsize-limit", "stale-longer"]:
+        for fault in ["ok", "missing-dir", "is-dir", "name-too-long", "notdir-component", "dev-full", "readonly-dir", "fsize-limit", "stale-longer",
+                      "bad-option-before-output"]:
             for pr in [False, True]:
                 cases.append({"fmt": fmt, "fault": fault, "print": pr, "limit": r.choice([1, 50, 200])})
             # the listing's consumer has gone away (--print into a pipe whose read end is closed): the program
             # dies in `print!` (status 101) — in particular it never turns an output fault into status 0
-            cases.append({"fmt": fmt, "fault": fault, "print": True, "limit": 50, "closed": True})
+            if fault != "bad-option-before-output":
+                cases.append({"fmt": fmt, "fault": fault, "print": True, "limit": 50, "closed": True})
     return cases
 
 
@@ -1434,6 +1462,10 @@ def lines_cli_fault(cases, workdir, stream, binary):
                     fault = "readonly-dir-as-root"
             elif fault == "stale-longer":
                 open(outp, "w").write("{" + " " * 5000 + "\"old\": true}" + "\n" * 100)
+            elif fault == "bad-option-before-output":
+                # a command line clap must refuse (unknown option / unparsable value) with the OUTPUT path to
+                # its right: never a run that quietly goes on without the requested output
+                args = args + [inp, c.get("bad", ["--frobnicate", "--num-threads=two", "--report-no-solution=yes"][i % 3])]
             preexec = None
             if fault == "fsize-limit":
                 lim = c["limit"]
@@ -1452,7 +1484,8 @@ def lines_cli_fault(cases, workdir, stream, binary):
                         os.close(pw_)
                     rc, so, se = p.returncode, "", p.stderr.decode("utf-8", "replace")
                 else:
-                    p = subprocess.run([binary] + args + [inp, outp], stdout=subprocess.PIPE, stderr=subprocess.PIPE, timeout=30, preexec_fn=preexec)
+                    tail = [outp] if fault == "bad-option-before-output" else [inp, outp]
+                    p = subprocess.run([binary] + args + tail, stdout=subprocess.PIPE, stderr=subprocess.PIPE, timeout=30, preexec_fn=preexec)
                     rc, so, se = p.returncode, p.stdout.decode("utf-8", "replace"), p.stderr.decode("utf-8", "replace")
             except subprocess.TimeoutExpired:
                 rc, so, se = None, "", "timeout"
@@ -1476,9 +1509,13 @@ def lines_cli_fault(cases, workdir, stream, binary):
                 expect_fail = fault not in ("ok", "stale-longer", "readonly-dir-as-root")
                 ok = expect_fail and rc is not None and rc != 0 and "panicked" not in se
                 what = f"{c['fmt']}/{fault}/print={c['print']}: exit {rc}; stderr tail {se[-200:]}"
-            if c["print"] and rc is not None and not closed:
+            if fault == "bad-option-before-output":
+                ok = rc not in (0, None) and "panicked" not in se and not os.path.exists(outp)
+            elif c["print"] and rc is not None and not closed:
                 ok = ok and so.startswith("The assignment is:")
             out.append(line("direct", ["C16"], ok=ok, what=what, case=i, stream=stream, feat=[f"{fault}:exit={rc}"] + (["stdout-closed"] if closed else [])))
+            if fault == "bad-option-before-output":
+                continue      # refused by clap (not modelled): the oracle above is all there is to say
             # decision logic of the output stage as modelled in Lean
             created = os.path.isfile(outp) or outp == "/dev/full"
             out.append(line("corr", ["C16"], "OS", json.dumps({"created": fault in ("ok", "dev-full", "fsize-limit", "stale-longer", "readonly-dir-as-root"),
@@ -1645,9 +1682,69 @@ def lines_cli_main(cases, workdir, stream, binary):
     return out
 
 
+# --------------------------------------------------------------------------------------------------
+# stream: simple-read: the COMPLETE result of the real simple-format reader (in-process: every field of every
+# course and participant incl. the stored indices, the de-duplicated instructor lists in their order, float bit
+# patterns, hidden names) and of `check_data_consistency` against the Lean model `SM.read` (driver op SD)
+
+def stream_simple_read(seed, tier, workdir, stream):
+    r = random.Random(seed * 982451653 + 31)
+    n = scale(tier, 300, 12000)
+    cases = []
+    for i in range(n):
+        doc, _ = gen_simple(r, rooms_mode=0, big=(i % 5 == 4))
+        what = None
+        if i % 3 == 2:
+            what, doc = corrupt_simple(r, doc, SIMPLE_CORRUPTIONS[(i // 3) % len(SIMPLE_CORRUPTIONS)])
+        elif i % 3 == 1:
+            # instructor lists as people write them: unsorted, with repeats (adjacent or not)
+            for c in doc["courses"]:
+                if c["instructors"] and r.random() < 0.6:
+                    c["instructors"] = c["instructors"] + [r.choice(c["instructors"]) for _ in range(r.randint(0, 2))]
+                    r.shuffle(c["instructors"])
+            if r.random() < 0.3:
+                doc["courses"][0]["unknown_member"] = {"x": [1, 2]}
+        cases.append({"doc": doc, "what": what})
+    return cases
+
+
+def lines_simple_read(cases, workdir, stream):
+    inf = os.path.join(workdir, f"simple-in-{os.getpid()}.jsonl")
+    outf = os.path.join(workdir, f"simple-out-{os.getpid()}.jsonl")
+    with open(inf, "w", encoding="utf-8") as f:
+        for c in cases:
+            f.write(json.dumps({"doc": c["doc"]}, ensure_ascii=False) + "\n")
+    p = subprocess.run([HARNESS_EXE, "simple-read", inf, outf], stdout=subprocess.PIPE, stderr=subprocess.STDOUT)
+    if p.returncode != 0:
+        raise RuntimeError("simple-read runner failed: " + p.stdout.decode()[-2000:])
+    res = [json.loads(l) for l in open(outf, encoding="utf-8")]
+    os.remove(inf); os.remove(outf)
+    out = []
+    for i, (c, rr) in enumerate(zip(cases, res)):
+        out.append({"kind": "case", "stream": stream, "case": i, "corpus": False, "data": c})
+        result = rr["result"]
+        payload = json.dumps({"doc": rr["tagged"]}, ensure_ascii=False)
+        feat = ["corrupt:" + str(c["what"])] if c.get("what") else ["valid"]
+        props = ["C14", "C15", "C01", "C08", "C10", "C17"]
+        if "panic" in result:
+            out.append(line("direct", ["C15"], ok=False, what="io::simple::read panicked: " + str(result["panic"])[:200], case=i, stream=stream))
+            out.append(line("corr", props, "SD", payload, "PANIC", case=i, stream=stream, feat=feat))
+        elif "err" in result:
+            out.append(line("corr", props, "SD", payload, "ERR", case=i, stream=stream, feat=feat + ["refused"]))
+        else:
+            ok = result["ok"]
+            # the stored indices are the positions (what `assert_data_consitency` checks in debug builds only)
+            idx_ok = all(x[0] == k for k, x in enumerate(ok["courses"])) and all(x[0] == k for k, x in enumerate(ok["parts"]))
+            out.append(line("direct", ["C14", "C01", "C17"], ok=idx_ok, what="stored course / participant indices are the positions" if idx_ok else
+                            f"stored indices differ from the positions: courses {[x[0] for x in ok['courses']]}, participants {[x[0] for x in ok['parts']]}",
+                            case=i, stream=stream))
+            out.append(line("corr", props, "SD", payload, json.dumps(ok, ensure_ascii=False), case=i, stream=stream, feat=feat + ["consistent" if ok["consistent"] else "inconsistent"]))
+    return out
+
+
 def run(stream, seed, tier, binary, workdir, corpus, replay_case=None):
     gens = {"cdedb-read": stream_cdedb_read, "cdedb-pairs": stream_cdedb_pairs, "e2e-cde": stream_e2e_cde,
-            "cli-simple": stream_cli_simple, "cli-malformed": stream_cli_malformed, "cli-fault": stream_cli_fault, "cli-main": stream_cli_main}
+            "cli-simple": stream_cli_simple, "cli-malformed": stream_cli_malformed, "cli-fault": stream_cli_fault, "cli-main": stream_cli_main, "simple-read": stream_simple_read}
     if replay_case is not None:
         cases = [replay_case]
     else:
@@ -1676,4 +1773,6 @@ def run(stream, seed, tier, binary, workdir, corpus, replay_case=None):
         return lines_cli_fault(cases, workdir, stream, binary)
     if stream == "cli-main":
         return lines_cli_main(cases, workdir, stream, binary)
+    if stream == "simple-read":
+        return lines_simple_read(cases, workdir, stream)
     raise RuntimeError("unknown cli stream " + stream)
